@@ -714,6 +714,44 @@ func (m *Monitor) structural(op Op) {
 			return
 		}
 	}
+	// C06: the edges of a registered node are exactly its current inputs, each once per occurrence
+	// (they depend on the current shape only, never on how many rebuilds led there)
+	if !m.failedSince {
+		for id, ref := range e.Nodes {
+			if ref == nil || ref.Recycled || ref.Kind == "Sentinel" || !e.G.Has(ref.INode) {
+				continue
+			}
+			var want []int
+			switch {
+			case m.invalided[id]:
+			case ref.Kind == "BindMain":
+				want = append(want, ref.Bind.B)
+				if ref.Bind.Memo != nil {
+					if ps := ref.Bind.Memo.Parents(); len(ps) == 2 {
+						if rid, ok := e.byPtr[ps[1].Node()]; ok {
+							want = append(want, rid)
+						}
+					}
+				} else if r, ok := m.rhsRoot[ref.Bind.B]; ok && r >= 0 {
+					want = append(want, r)
+				}
+			default:
+				want = append(want, ref.Decl...)
+			}
+			sort.Ints(want)
+			var got []int
+			for _, p := range incr.ExpertNode(ref.INode).Parents() {
+				if pid, ok := e.byPtr[p.Node()]; ok && e.Nodes[pid] != nil && e.Nodes[pid].Kind != "Sentinel" {
+					got = append(got, pid)
+				}
+			}
+			sort.Ints(got)
+			if fmt.Sprint(got) != fmt.Sprint(want) {
+				m.add("C06", "edges-vs-inputs", fmt.Sprintf("n%d is linked to inputs %v but its current inputs are %v after %s", id, got, want, op.String()))
+				break
+			}
+		}
+	}
 	if int(eg.NumNodes()) != registered+len(e.Obs)+sentinels {
 		m.add("C05", "node-count", fmt.Sprintf("NumNodes=%d but %d nodes, %d observers and %d sentinels are registered after %s", eg.NumNodes(), registered, len(e.Obs), sentinels, op.String()))
 	}
